@@ -17,6 +17,40 @@ def ed_enc(y, sign):
 # than once: behaviour must not depend on what was decoded before, in this group or in another one
 # (memo tables keyed without the group, or filled before validation, show up only here)
 # ---------------------------------------------------------------------------------------
+def default_seeds_after_custom(w, prop, tier):
+    """`_Params(group)` with seed arguments omitted, before and after parameter sets with custom seeds were built over
+    the same and over other groups: the constructor's defaults must stay the published seeds (a default held in shared
+    mutable state, or remembered from an earlier call, shows only in this order of construction)"""
+    out = []
+    names = [n for n in ("ed", "1024", "toy2039_1019_4") if n in w.groups]
+    if tier != "thorough":
+        names = names[:2]
+    pid = w.next_pid + 700
+    sc = w.scenario("%s/default-seeds-after-custom" % prop, ("constructor-defaults", "order-of-construction"))
+    pairs = []
+    for n in names:
+        gid = w.groups[n]
+        first = {}
+        for tag, (m, n_, s_) in (("d0", "~~~"), ("M", ("6170702d4d", "~", "~")), ("d1", "~~~"), ("N", ("~", "6170702d4e", "~")),
+                                 ("S", ("~", "~", "6170702d53")), ("d2", "~~~"), ("MN", ("4e", "4d", "~")), ("d3", "~~~")):
+            o = sc.do("paramsopt %d %d %s %s %s" % (pid, gid, m, n_, s_))
+            if o == "ok":
+                first[tag] = sc.do("p.mns %d" % pid)
+            pid += 1
+        pairs.append((n, first))
+    sc.meta["pairs"] = pairs
+
+    def pred(io, sc):
+        for (n, f) in sc.meta["pairs"]:
+            ds = [f[k] for k in ("d0", "d1", "d2", "d3") if k in f]
+            if len(set(ds)) > 1:
+                return "%s: _Params(group) with default seeds gives different blinding elements after parameter sets with custom seeds were constructed" % n
+        return None
+    sc.pred = pred
+    out.append(sc)
+    return out
+
+
 def mix_toy_int(w, prop, tier):
     gs = [ps for ps in w.gs.values() if ps.toy and ps.kind == "int" and ps.esize == 1]
     if len(gs) < 2:
@@ -538,6 +572,10 @@ def gen_C13(w, tier):
                 d, o3 = R.sub(a, b)
                 back, o4 = R.add(d, b)
                 must(o4.startswith("ok") and R.eq(back, a) == "ok true", "(a-b)+b != a: %s" % o4)
+                if o3.startswith("ok"):
+                    must(o3.split()[2] in ("elem", "zero"), "a-b is not a full element: %s" % o3)
+                    _, o5 = R.smul(d, -2)
+                    must(o5.startswith("ok"), "(a-b).scalarmult(-2) raised: %s" % o5)
         if has_neg:
             for a in els[:6]:
                 amz, o = R.sub(a, zero)
@@ -558,6 +596,12 @@ def gen_C13(w, tier):
                 must(o.startswith("ok") and o2.startswith("ok") and R.eq(s, zero) == "ok true", "a + (-a) != Zero: %s %s" % (o, o2))
                 m1, o3 = R.smul(a, -1)
                 must(o.startswith("ok") and o3.startswith("ok") and payload(o) == payload(o3), "negate != scalarmult(-1)")
+                if o.startswith("ok"):
+                    # the negation is again a full element: it takes negative scalars, and (-a)*(-2) == a*2
+                    must(o.split()[2] in ("elem", "zero"), "-a is not a full element: %s" % o)
+                    t1, o5 = R.smul(na, -2)
+                    t2, o6 = R.smul(a, 2)
+                    must(o5.startswith("ok") and o6.startswith("ok") and payload(o5) == payload(o6), "(-a).scalarmult(-2) != a.scalarmult(2): %s / %s" % (o5, o6))
             # n-fold addition
             acc, acc_o = zero, None
             for n in range(0, 5):
@@ -1028,6 +1072,7 @@ def gen_C18(w, tier):
         return None
     sc4.pred = pred4
     out.append(sc4)
+    out += default_seeds_after_custom(w, "C18", tier)
     return out
 
 
